@@ -195,6 +195,19 @@ var mutants = []Mutant{
 	{"C20-commit-before-count", "C20", "minter-connector/cmd/mhub-minter-connector/main.go", `(\t\t\tctx\.SetLastCheckedMinterBlock\(block\.Height\)\n)`, "${1}\t\t\tctx.Commit()\n", "C20.cursor", "the relay loop commits the block cursor before the block's events are counted"},
 	{"C16-resolver-cache", "C16", "module/x/mhub2/keeper/msg_server.go", `(?s)(import \(\n)(.*?)(func \(k Keeper\) getSignerValidator\([^\n]*\n)`, "${1}\t\"sync\"\n${2}var signerCacheM sync.Map\n\n${3}\tsignerCacheM.Store(signerString, chainId)\n", "C16.guards", "the signer resolver keeps a process-local cache"},
 	{"C11-amount-as-remainder", "C11", "module/x/mhub2/keeper/pool.go", `convertedAmount := k\.ConvertToExternalValue\(ctx, chainId, tokenInfo\.ExternalTokenId, amount\.Amount\)`, "convertedAmount := k.ConvertToExternalValue(ctx, chainId, tokenInfo.ExternalTokenId, amount.Amount.Add(fee.Amount)).Sub(k.ConvertToExternalValue(ctx, chainId, tokenInfo.ExternalTokenId, fee.Amount))", "C11.convert-truncates", "scheduled amount computed as converted total minus converted fee"},
+	// rules added after the fifth seeding round
+	{"C01-cold-storage-whole", "C01", "module/x/mhub2/keeper/keeper.go", `vouchers := sdk\.Coins\{coin\}`, `vouchers := sdk.NewCoins(c.Amount...)`, "C01.mint-sites", "each step of a cold-storage transfer mints the whole proposal"},
+	{"C04-selection-dropped", "C04", "module/x/mhub2/keeper/batch.go", `(\tif len\(selectedStes\) == 0 \{\n\t\treturn nil\n\t\}\n)`, "${1}\tif maxElements > BatchTxSize {\n\t\treturn nil\n\t}\n", "C04.batch-build", "an exit after the selection ran that stores no batch"},
+	{"C04-nonce-before-selection", "C04", "module/x/mhub2/keeper/batch.go", `(?s)(\tvar selectedStes \[\]\*types\.SendToExternal\n)(.*?)BatchNonce:      k\.incrementLastOutgoingBatchNonce\(ctx, chainId\),`, "\tbatchNonce := k.incrementLastOutgoingBatchNonce(ctx, chainId)\n${1}${2}BatchNonce:      batchNonce,", "C04.batch-build", "the batch nonce is consumed before it is known that anything was selected"},
+	{"C07-gravity-id-trimmed", "C07", "module/x/mhub2/keeper/keeper.go", `(func \(k Keeper\) getGravityID\(ctx sdk\.Context\) string \{\n\tvar a string\n[^\n]*\n)\treturn a\n`, "${1}\treturn strings.TrimSpace(a)\n", "C07.field-map", "the gravity id is trimmed before it enters the digest"},
+	{"C08-listing-reversed", "C08", "module/x/mhub2/keeper/keeper.go", `(func \(k Keeper\) PaginateOutgoingTxsByType\([^\n]*\n\tprefixStore := [^\n]*\n)`, "${1}\tif pageReq != nil {\n\t\tpageReq.Reverse = true\n\t}\n", "C08.listing-order", "outgoing tx listings are served newest first"},
+	{"C10-recover-live-ctx", "C10", "module/x/mhub2/abci.go", `(func createBatchTxs\(ctx sdk\.Context, chainId types\.ChainID, k keeper\.Keeper\) \{\n)`, "${1}\tdefer func() {\n\t\tif r := recover(); r != nil {\n\t\t\tctx.Logger().Error(\"batch creation failed\")\n\t\t}\n\t}()\n", "C10.counters", "automatic batch creation swallows panics on the live context"},
+	{"C10-restore-after-import", "C10", "module/x/mhub2/keeper/genesis.go", `(?s)(\t\tk\.setOutgoingSequence\(ctx, chainId, externalState\.Sequence\)\n)(.*?)(\t\tk\.setLastOutgoingBatchNonce\(ctx, chainId, externalState\.LastOutgoingBatchTxNonce\)\n)`, "${2}${3}${1}", "C10.counters", "the outgoing sequence is restored after the imported txs were stamped"},
+	{"C12-age-reset", "C12", "module/x/mhub2/keeper/batch.go", `(\tfor _, tx := range batch\.Transactions \{\n)(\t\tk\.setUnbatchedSendToExternal\(ctx, chainId, tx\)\n)`, "${1}\t\ttx.CreatedAt = uint64(ctx.BlockTime().Unix())\n${2}", "C12.expiry", "a dissolved batch puts its transfers back with a fresh age"},
+	{"C20-pass-wider-than-window", "C20", "minter-connector/cmd/mhub-minter-connector/main.go", `(?s)LastCheckedMinterBlock\(\) > 100 \{\n\t\tlatestBlock = ctx\.LastCheckedMinterBlock\(\) \+ 100`, "LastCheckedMinterBlock() > 1000 {\n\t\tlatestBlock = ctx.LastCheckedMinterBlock() + 1000", "C20.cursor", "a relay pass may span ten windows that are computed from the moving cursor"},
+	{"C05-slashing-enabled", "C05", "module/x/mhub2/abci.go", `//outgoingTxSlashing\(ctx, chainId, k\)`, `outgoingTxSlashing(ctx, chainId, k)`, "C05.contain", "outgoing-tx slashing enabled with its stale 'not jailed' snapshot"},
+	{"C11-connector-nets-fee", "C11", "minter-connector/cosmos/cosmos.go", `Amount:           amount,`, `Amount:           amount.Sub(fee),`, "C11.credit", "the connector reports cross-chain deposits net of the fee"},
+	{"C13-payout-units", "C13", "module/x/mhub2/keeper/batch.go", `totalFee\.Amount = totalFee\.Amount\.Add\(tx\.Fee\.Amount\)`, `totalFee.Amount = totalFee.Amount.Add(k.ConvertFromExternalValue(ctx, chainId, tx.Fee.ExternalTokenId, tx.Fee.Amount))`, "C13.exact-delete", "the fee total is converted twice (payout arithmetic the removal depends on)"},
 	{"C20-count-invalid", "C20", "minter-connector/minter/minter.go", `if cmd\.ValidateAndComplete\(value\) == nil \{`, `if cmd.ValidateAndComplete(value) == nil || true {`, "C20.counted-iff-valid", "invalid commands counted by the resync scan"},
 }
 
